@@ -443,3 +443,12 @@ package schema
 //@ func (Choice).Choices
 //@   nopanic
 //@   ensures len(result) == sch_nchoices(self) && forall(i, 0, len(result), result[i] == sch_choice(self, i) && result[i] != nil)
+
+// Defaults (C18): a leaf has a default exactly when it is not mandatory and its type gives one - also when the
+// default value is the empty string.
+//@ func (*leaf).Default
+//@   requires n != nil && n.typ != nil
+//@   ensures result1 == (!n.mandatory && type_hasdefault(n.typ)) && implies(result1, result0 == type_default(n.typ))
+//@ func (*leaf).HasDefault
+//@   requires n != nil && n.typ != nil
+//@   ensures result == (!n.mandatory && type_hasdefault(n.typ))
